@@ -4,6 +4,7 @@ use serde_json::{Value, json};
 use std::io::{BufRead, Write};
 
 mod ops_argv;
+mod ops_descriptor;
 mod ops_env;
 mod ops_graph;
 mod ops_inventory;
@@ -14,6 +15,9 @@ mod ops_serde;
 mod ops_writer;
 
 fn main() {
+    if let Ok(req) = std::env::var("VERIF_DESCRIPTOR") {
+        ops_descriptor::child(&req);
+    }
     if let Ok(scenario) = std::env::var("VERIF_SCENARIO") {
         ops_runner::child(&scenario);
     }
@@ -53,6 +57,7 @@ fn dispatch(op: &str, req: &Value) -> Value {
         "env-paths" => ops_env::paths(req),
         "argv" => ops_argv::run(req),
         "runner-scenario" => ops_runner::run(req),
+        "normalize-descriptor" => ops_descriptor::run(req),
         "dep-graph" => ops_graph::run(req),
         _ => json!({"error": format!("unknown op {op}")}),
     }
